@@ -598,12 +598,29 @@ def monitor_c29(ops, outs):
     st = "idle"
     version_seen = False
     early_disconnect = False    # disconnect() was called before the first connection event
+    local_reason = None
     EARLY = "C29:disconnect-before-established:established-never-reported"
     for k, (op, line) in enumerate(zip(ops, outs)):
         f = fields(line)
         if "bad" in f:
             continue
         cbs = cb_list(f)
+        if op.startswith("reset") or (op.startswith("connect") and f.get("r") == "1"):
+            local_reason = None
+        if op.startswith("api disconnect"):
+            w = op.split()
+            local_reason = int(w[2]) if len(w) > 2 else 0x16
+        # "closed with the reason": the central's LL_TERMINATE_IND reason or the one given to disconnect()
+        for c in cbs:
+            if c.startswith("closed:"):
+                ok = set()
+                if local_reason is not None:
+                    ok.add(local_reason)
+                ok |= {int(p[4:6], 16) for p in pdus_of(op) if is_ctrl(p, 0x02, 2)}
+                if ok and int(c[7:], 16) not in ok and c not in ("closed:08", "closed:22"):
+                    return k, "C29:closed-reason", "op %d `%s`: reported %s, expected reason in %s" % (k, op[:60], c, sorted(ok))
+                if not ok and c not in ("closed:08", "closed:22", "closed:28"):
+                    return k, "C29:closed-reason", "op %d `%s`: reported %s without LL_TERMINATE_IND / disconnect()" % (k, op[:60], c)
         if op.startswith("api disconnect") and st == "requested":
             early_disconnect = True
         if st == "idle":
